@@ -25,48 +25,75 @@
 (*            produces, whichever framework captured it                    *)
 (*   chain    to_borrowed_error() yields the original's source chain       *)
 (*   null     the value is the null value (as_value of None)               *)
+(*   text_stable  a number / boolean / string captured typed shows the same *)
+(*            Display text on every representation and read path (the copy *)
+(*            "survives unchanged": compared with the captured Value)      *)
+(*                                                                         *)
+(* Dimensions of a case: call site = capture mode (incl. the attribute's   *)
+(* ARGUMENT inspect: absent / false / true) x type class x WRAP (the macro *)
+(* form around the capture: props!, renamed key before / after the mode,   *)
+(* evt! property, evt! template hole); transformation path; READER (the    *)
+(* read path used on the final representation: every one the type offers); *)
+(* values (every pool extreme for short paths, one seeded draw otherwise). *)
 (***************************************************************************)
 EXTENDS Naturals, Sequences, FiniteSets, TLC, Json
 
 CONSTANTS
     MaxSteps,   \* bound on the length of a transformation path
-    Emit        \* TRUE: print one REPLAY line per transition
+    ExhaustUpTo,\* paths up to this length are run on EVERY extreme of the value pool
+    Emit        \* TRUE: print one REPLAY line per observation
 
-Modes == {"default", "as_display", "as_display_inspect", "as_debug", "as_debug_inspect",
-          "as_value", "as_value_inspect", "as_sval", "as_sval_inspect", "as_serde",
-          "as_serde_inspect", "as_error", "err_key",
+\* capture attributes take one argument, `inspect`: absent, `inspect: false` (= absent), `inspect: true`
+Modes == {"default", "as_display", "as_display_inspect", "as_display_inspect_false",
+          "as_debug", "as_debug_inspect", "as_debug_inspect_false",
+          "as_value", "as_value_inspect", "as_value_inspect_false",
+          "as_sval", "as_sval_inspect", "as_sval_inspect_false",
+          "as_serde", "as_serde_inspect", "as_serde_inspect_false", "as_error", "err_key",
           "optional_default", "optional_as_value", "optional_as_sval", "optional_as_serde",
           "optional_as_debug"}
 OptionalModes == {"optional_default", "optional_as_value", "optional_as_sval",
                   "optional_as_serde", "optional_as_debug"}
 
 \* type classes; the Rust types of each class are listed by the harness (one real macro
-\* call site per (mode, type))
-Prim == {"int", "float", "bool", "str"}          \* numbers, booleans, strings
+\* call site per (mode, type, wrap)).  "str" is a &str expression, "string" a String.
+Prim == {"int", "float", "bool", "str", "string"}          \* numbers, booleans, strings
 Structured == {"struct", "enum", "seq", "map", "bytes", "option_some", "option_none"}
 Classes == Prim \cup Structured \cup {"float32", "char", "error", "display_only", "debug_only",
                                       "none_prim", "none_struct"}
 
-Inspected == {"int", "float", "float32", "bool", "char"}
+\* captured as the primitive it is when inspected
+Inspected == {"int", "float", "float32", "bool", "char", "str", "string"}
 
+\* `inspect: false` means the same as no argument
 Base(m) ==
     CASE m = "optional_default" -> "default"
       [] m = "optional_as_value" -> "as_value"
       [] m = "optional_as_sval" -> "as_sval"
       [] m = "optional_as_serde" -> "as_serde"
       [] m = "optional_as_debug" -> "as_debug"
+      [] m = "as_display_inspect_false" -> "as_display"
+      [] m = "as_debug_inspect_false" -> "as_debug"
+      [] m = "as_value_inspect_false" -> "as_value"
+      [] m = "as_sval_inspect_false" -> "as_sval"
+      [] m = "as_serde_inspect_false" -> "as_serde"
       [] OTHER -> m
 
+\* the macro form around the capture
+Wraps == {"props", "key_first", "key_last", "evt_prop", "evt_hole"}
+WrapModes == {"default", "as_display", "as_debug", "as_value", "as_sval", "as_serde", "as_error"}
+WrapClasses == {"int", "string", "struct", "error"}
+
 \* which call sites exist (the traits each capture mode requires)
-Valid(m, c) ==
-    LET b == Base(m) IN
+PlainModes == {"default", "as_display", "as_display_inspect", "as_debug", "as_debug_inspect", "as_value",
+               "as_value_inspect", "as_sval", "as_sval_inspect", "as_serde", "as_serde_inspect"}
+ValidBase(m, b, c) ==
     IF m \in OptionalModes
     THEN CASE c \in {"none_prim"} -> b \in {"default", "as_value", "as_debug"}
            [] c \in {"none_struct"} -> b \in {"as_sval", "as_serde", "as_debug"}
            [] c \in Prim -> b \in {"default", "as_value", "as_sval", "as_serde", "as_debug"}
            [] c \in {"struct", "seq", "map"} -> b \in {"as_sval", "as_serde", "as_debug"}
            [] OTHER -> FALSE
-    ELSE CASE c \in Prim -> b \in Modes \ (OptionalModes \cup {"as_error", "err_key"})
+    ELSE CASE c \in Prim -> b \in PlainModes
            [] c \in {"float32", "char"} -> b \in {"default", "as_display", "as_display_inspect", "as_debug",
                                                   "as_debug_inspect", "as_sval", "as_serde"}
            [] c \in {"struct", "enum"} -> b \in {"default", "as_display", "as_debug", "as_debug_inspect", "as_sval",
@@ -78,8 +105,16 @@ Valid(m, c) ==
            [] c = "display_only" -> b \in {"default", "as_display", "as_display_inspect"}
            [] c = "debug_only" -> b \in {"as_debug", "as_debug_inspect"}
            [] OTHER -> FALSE
+\* the explicit `inspect: false` sites: for the classes where inspecting makes a difference
+Valid(m, c) ==
+    IF m \in {"as_display_inspect_false", "as_debug_inspect_false", "as_value_inspect_false",
+              "as_sval_inspect_false", "as_serde_inspect_false"}
+    THEN ValidBase(Base(m), Base(m), c) /\ c \in {"int", "float", "string", "char", "struct", "debug_only", "display_only"}
+    ELSE ValidBase(m, Base(m), c)
+ValidWrap(m, c, w) ==
+    w = "props" \/ (m \in WrapModes /\ c \in WrapClasses /\ Valid(m, c))
 
-Sites == {<<m, c>> \in Modes \X Classes : Valid(m, c)}
+Sites == {s \in Modes \X Classes \X Wraps : Valid(s[1], s[2]) /\ ValidWrap(s[1], s[2], s[3])}
 
 \* THE MEANING TABLE (level A: the statement)
 Meaning(m, c) ==
@@ -88,16 +123,16 @@ Meaning(m, c) ==
     ELSE {"present"} \cup
         CASE b = "default" ->
                 \* numbers, booleans, strings pull back typed; anything else displays
-                IF c \in Prim \cup {"float32"} THEN {"pull"} ELSE {"display"}
+                IF c \in Prim \cup {"float32"} THEN {"pull", "text_stable"} ELSE {"display"}
           \* `inspect: true` asks for the value to be captured as the primitive it is; how a
           \* number / bool / char then formats is not promised (don't-care)
           [] b \in {"as_display_inspect", "as_debug_inspect"} /\ c \in Inspected -> {}
           [] b \in {"as_display", "as_display_inspect"} -> {"display"}
-          \* a str is captured as the string it is under every mode (impl Capture* for str):
-          \* its own text or its Debug text are both accepted
+          \* a &str is captured as the string it is under every mode (impl Capture* for str):
+          \* its own text or its Debug text are both accepted; a String formats with Debug
           [] b \in {"as_debug", "as_debug_inspect"} -> IF c = "str" THEN {"debug_or_text"} ELSE {"debug"}
           [] b \in {"as_value", "as_value_inspect"} ->
-                CASE c \in Prim -> {"pull"}
+                CASE c \in Prim -> {"pull", "text_stable"}
                   [] c = "option_some" -> {"pull"}
                   [] c = "option_none" -> {"null"}
                   [] OTHER -> {}
@@ -106,22 +141,41 @@ Meaning(m, c) ==
           [] OTHER -> {}
 
 \* what a transformation step must preserve
-Steps == {"ByRef", "Erase", "EraseEvent", "ToOwned", "ToShared", "IntoCtxt", "MoveThread", "ReadBack"}
-All == {"present", "absent", "pull", "display", "debug", "debug_or_text", "tree", "chain", "null"}
+Steps == {"ByRef", "Erase", "EraseEvent", "ToOwned", "ToShared", "IntoCtxt", "PushFrame", "MoveThread", "ReadBack"}
+All == {"present", "absent", "pull", "display", "debug", "debug_or_text", "tree", "chain", "null", "text_stable"}
 Survives(s) ==
     CASE s \in {"ByRef", "Erase", "EraseEvent", "ReadBack"} -> All   \* read directly / type-erased: everything
       \* numbers, booleans, strings and structured values survive buffering and threads;
       \* Display/Debug text and error identity after buffering: not promised (don't-care)
-      [] s \in {"ToOwned", "ToShared", "IntoCtxt", "MoveThread"} -> {"present", "absent", "pull", "tree", "null"}
+      [] s \in {"ToOwned", "ToShared", "IntoCtxt", "PushFrame", "MoveThread"} ->
+            {"present", "absent", "pull", "tree", "null", "text_stable"}
+
+\* THE READ PATHS each representation offers (the final observation goes through one of them)
+Readers(r, path) ==
+    CASE r = "val" ->
+            {"value",        \* the Value's own methods / impls
+             "clone",        \* a clone of it
+             "to_value",     \* ToValue::to_value / Value::from_any
+             "render"}       \* a template hole rendered with it (what every sink's message shows)
+            \cup (IF path = <<>> THEN {"enumerated",   \* taken from Props::for_each instead of get
+                                      "pulled"}       \* Props::pull::<Value>
+                  ELSE {})
+      [] r \in {"owned", "shared"} ->
+            {"direct",       \* the impls of OwnedValue itself: Display, Debug, Serialize, sval::Value, From<&OwnedValue>
+             "by_ref", "clone", "to_value"}
+      [] r = "frame" ->
+            {"get", "for_each", "pull",    \* entered: Ctxt::with_current, then Props::get / for_each / pull
+             "frame_props"}                \* the frame itself as Props, without entering it
 
 VARIABLES
-    site,   \* <<mode, class>>
+    site,   \* <<mode, class, wrap>>
     rep,    \* where the value lives: "val" (a borrowed Value), "owned", "shared", "frame"
     thr,    \* 0: the capturing thread, 1: another thread
     comp,   \* level B: the components still promised, updated step by step
-    hist    \* the path so far (part of the state: every path is enumerated)
+    hist,   \* the path so far (part of the state: every path is enumerated)
+    obs     \* "none", or the reader the final observation was taken with (terminal)
 
-vars == <<site, rep, thr, comp, hist>>
+vars == <<site, rep, thr, comp, hist, obs>>
 
 Init ==
     /\ site \in Sites
@@ -129,14 +183,19 @@ Init ==
     /\ thr = 0
     /\ comp = Meaning(site[1], site[2])
     /\ hist = <<>>
+    /\ obs = "none"
+
+\* the macro form only matters for the capture: wrapped sites get short paths
+StepBound == IF site[3] = "props" THEN MaxSteps ELSE 1
 
 Step(s, from, to) ==
-    /\ Len(hist) < MaxSteps
+    /\ obs = "none"
+    /\ Len(hist) < StepBound
     /\ rep \in from
     /\ rep' = to
     /\ comp' = comp \cap Survives(s)
     /\ hist' = Append(hist, s)
-    /\ UNCHANGED site
+    /\ UNCHANGED <<site, obs>>
 
 ByRef == Step("ByRef", {"val"}, "val") /\ UNCHANGED thr
 Erase == Step("Erase", {"val"}, "val") /\ UNCHANGED thr
@@ -144,11 +203,20 @@ EraseEvent == Step("EraseEvent", {"val"}, "val") /\ UNCHANGED thr
 ToOwned == Step("ToOwned", {"val"}, "owned") /\ UNCHANGED thr
 ToShared == Step("ToShared", {"val"}, "shared") /\ UNCHANGED thr
 IntoCtxt == Step("IntoCtxt", {"val"}, "frame") /\ UNCHANGED thr
+\* a child frame opened with open_push inside the frame: the properties are copied into it
+PushFrame == Step("PushFrame", {"frame"}, "frame") /\ UNCHANGED thr
 \* only owned data can change threads
 MoveThread == Step("MoveThread", {rep} \cap {"owned", "shared", "frame"}, rep) /\ thr' = 1 - thr
 ReadBack == Step("ReadBack", {"owned", "shared", "frame"}, "val") /\ UNCHANGED thr
 
-Next == ByRef \/ Erase \/ EraseEvent \/ ToOwned \/ ToShared \/ IntoCtxt \/ MoveThread \/ ReadBack
+\* the final observation, through one of the read paths of the representation
+Observe ==
+    /\ obs = "none"
+    /\ \E r \in Readers(rep, hist) : obs' = r
+    /\ UNCHANGED <<site, rep, thr, comp, hist>>
+
+Next == ByRef \/ Erase \/ EraseEvent \/ ToOwned \/ ToShared \/ IntoCtxt \/ PushFrame \/ MoveThread \/ ReadBack
+        \/ Observe
 
 Spec == Init /\ [][Next]_vars
 
@@ -159,6 +227,11 @@ Meet(path, i) == IF i > Len(path) THEN All ELSE Survives(path[i]) \cap Meet(path
 Promise == Meaning(site[1], site[2]) \cap Meet(hist, 1)
 
 TypeOK == rep \in {"val", "owned", "shared", "frame"} /\ thr \in {0, 1} /\ comp \subseteq All
+          /\ (obs = "none" \/ obs \in Readers(rep, hist))
+
+\* no read path weakens the promise: what is promised for the representation is promised for
+\* every reader of it (Observe leaves comp unchanged) - stated as an action property
+ReadersAgree == [][obs' # obs => comp' = comp]_vars
 
 \* the step-by-step bookkeeping computes the promise
 Preserved == comp = Promise
@@ -168,7 +241,8 @@ PresenceNeverLost ==
     /\ "present" \in Meaning(site[1], site[2]) => "present" \in comp
     /\ "absent" \in Meaning(site[1], site[2]) => comp = {"absent"}
 TypedSurvivesBuffering ==
-    (site[2] \in Prim /\ Base(site[1]) \in {"default", "as_value", "as_value_inspect"}) => "pull" \in comp
+    (site[2] \in Prim /\ Base(site[1]) \in {"default", "as_value", "as_value_inspect"})
+        => {"pull", "text_stable"} \subseteq comp
 StructureSurvivesBuffering ==
     Base(site[1]) \in {"as_sval", "as_sval_inspect", "as_serde", "as_serde_inspect"}
         /\ site[2] \notin {"none_prim", "none_struct"} => "tree" \in comp
@@ -176,12 +250,14 @@ DirectReadKeepsAll ==
     (\A i \in 1..Len(hist) : hist[i] \in {"ByRef", "Erase", "EraseEvent"}) => comp = Meaning(site[1], site[2])
 
 -----------------------------------------------------------------------------
-(* spec -> code: one REPLAY line per transition: the call site, the path and the
-   components the statement promises at its end. *)
+(* spec -> code: one REPLAY line per observation: the call site, the path, the reader and
+   the components the statement promises there. *)
 EmitReplay ==
-    Emit => PrintT(<<"REPLAY", ToJson([mode |-> site[1], class |-> site[2], path |-> hist',
-                                        promise |-> comp'])>>)
+    (Emit /\ obs' # "none" /\ obs = "none") =>
+        PrintT(<<"REPLAY", ToJson([mode |-> site[1], class |-> site[2], wrap |-> site[3], path |-> hist,
+                                    reader |-> obs', promise |-> comp,
+                                    values |-> IF Len(hist) <= ExhaustUpTo THEN "all" ELSE "draw"])>>)
 
-\* the call sites and their meaning, printed once (also the zero-length paths)
-SiteTable == {[mode |-> s[1], class |-> s[2], promise |-> Meaning(s[1], s[2])] : s \in Sites}
+\* the call sites and their meaning, printed once
+SiteTable == {[mode |-> s[1], class |-> s[2], wrap |-> s[3], promise |-> Meaning(s[1], s[2])] : s \in Sites}
 =============================================================================
